@@ -219,8 +219,9 @@ def ref_pages(path):
                    Output(se, AnsiFormatter(app.config.style_set, True)))
     app.get_command("help").run(ArgvArgs([NAME, "help"] + list(path)), cio)
     ref = {"help_out": plain["out"], "help_err": plain["err"], "help_ansi_out": so.fetch(), "help_ansi_err": se.fetch()}
-    if strip_sgr(ref["help_ansi_out"]) != ref["help_out"]:
-        raise RuntimeError("engine error: forced-ANSI reference help page differs from the plain one in its text")
+    # should decoration change the text of the page (that would be C11's business) the exact decorated
+    # comparison is dropped and only "is decorated at all" is demanded
+    ref["ansi_same_text"] = strip_sgr(ref["help_ansi_out"]) == ref["help_out"] and strip_sgr(ref["help_ansi_err"]) == ref["help_err"]
     _REF[key] = ref
     return ref
 
@@ -335,7 +336,8 @@ def judge(info, variant, obs, count, tty=False):
         if decor:
             why = "--ansi" if ansi else "terminal-like streams, no ANSI switch"
             count(("ansi_" if ansi else "ttydefault_") + which + sfx)
-            if is_help and not is_version and (out != ref["help_ansi_out"] or err != ref["help_ansi_err"]):
+            if is_help and not is_version and ((out != ref["help_ansi_out"] or err != ref["help_ansi_err"]) if ref["ansi_same_text"]
+                                               else "\x1b" not in out):
                 v("%s:help-page" % ("ansi" if ansi else "ttydefault"), "%s with the help switch: page is not the decorated help page" % why,
                   ref["help_ansi_out"][:200], out[:200])
             if is_version and not is_help and "\x1b" not in out:
